@@ -29,7 +29,7 @@ ASSUMPTIONS = ['statements inside the standard library are not preemption points
                'every thread is a fresh thread or a worker serving requests one after another; the application object is the module default app (redirect needs it)']
 
 KINDS = ['echo', 'post', 'raise_resp', 'abort', 'crash', 'nf', 'na', 'big', 'redirect', 'gen', 'multipart', 'json', 'chunked', 'noname_json',
-         'chunked_form', 'echo10', 'redirect10', 'session', 'static', 'static_denied', 'logout', 'relogin', 'bigfile', 'extattr', 'static_range', 'badpath_tail', 'prepared', 'meta_post']
+         'chunked_form', 'echo10', 'redirect10', 'session', 'static', 'static_denied', 'logout', 'relogin', 'bigfile', 'extattr', 'static_range', 'badpath_tail', 'prepared', 'meta_post', 'session2', 'nonascii']
 _APP = {}
 
 
@@ -174,6 +174,24 @@ def get_app():
         mine.body = 'see you, ' + m
         return mine
 
+    def session2():
+        # another part of the site signs with a secret of its own
+        sess = rq.get_cookie('sess2', secret='another secret, ' * 3) or {'n': 0, 'log': []}
+        sess['n'] += 1
+        sess['log'].append(rq.query.get('m'))
+        rs.set_cookie('sess2', sess, secret='another secret, ' * 3)
+        rs.set_cookie('plain', 'p-' + rq.query.get('m'))
+        return 'session2=%r' % (sess,)
+
+    def nonascii():
+        # header values and a cookie outside ASCII (and outside Latin-1)
+        m = rq.query.get('m')
+        rs.headers['X-Name'] = 'Zoë Łukasz ' + m
+        rs.headers.append('X-Name', 'café ' + m)
+        rs.set_cookie('who', 'zoë-' + m)
+        rs.content_type = 'text/plain; charset=utf-8; name=日本-' + m
+        return 'héllo ' + m
+
     def bigfile():
         # a file-like body of a few hundred KiB, streamed by the framework's own file wrapper (the server offers none)
         import io
@@ -219,6 +237,8 @@ def get_app():
     app.router.add('/meta', 'POST', meta_post, meta={'max_body_size': 100000, 'max_memfile_size': 100000})
     app.route('/bigfile', 'GET', bigfile)
     app.route('/prepared', 'GET', prepared)
+    app.route('/session2', 'GET', session2)
+    app.route('/nonascii', 'GET', nonascii)
     app.route('/extattr', 'GET', extattr)
     app.route('/relogin', 'GET', relogin)
     app.route('/mp', 'POST', multipart)
@@ -295,7 +315,10 @@ def make_env(kind, m):
     if kind == 'badpath_tail':
         # a path cut inside a UTF-8 sequence at its very end: 400 for this request, nothing for anybody else
         return make_environ('GET', '/x', raw_path='/echo/' + m + ('\xc3' if len(m) % 2 else '\xe6\x97'), qs='m=' + m, headers={'X-M': m})
-    if kind in ('logout', 'relogin', 'bigfile', 'prepared'):
+    if kind == 'session2':
+        from ombott.common_helpers import cookie_encode
+        return make_environ('GET', '/session2', qs='m=' + m, headers={'Cookie': 'sess2="' + cookie_encode(('sess2', {'n': 7, 'log': ['s2']}), 'another secret, ' * 3).decode() + '"'})
+    if kind in ('logout', 'relogin', 'bigfile', 'prepared', 'nonascii'):
         return make_environ('GET', '/' + kind, qs='m=' + m)
     if kind == 'static_range':
         # a slice out of the middle of a file of the request's own, streamed by the framework in pieces
@@ -353,7 +376,7 @@ class Lab:
             res, info = self.sched.run([job(self.app, [(kind, m)])], [])
             assert res[0][0] == 'ok', res
             status = res[0][1][0][0]
-            expect_ok = kind in ('echo', 'post', 'raise_resp', 'gen', 'multipart', 'json', 'chunked', 'redirect', 'chunked_form', 'echo10', 'redirect10', 'session', 'static', 'logout', 'relogin', 'bigfile', 'extattr', 'static_range', 'prepared', 'meta_post')
+            expect_ok = kind in ('echo', 'post', 'raise_resp', 'gen', 'multipart', 'json', 'chunked', 'redirect', 'chunked_form', 'echo10', 'redirect10', 'session', 'static', 'logout', 'relogin', 'bigfile', 'extattr', 'static_range', 'prepared', 'meta_post', 'session2', 'nonascii')
             if expect_ok and not status.startswith(('2', '3')) and self.ctx is not None:
                 # these requests succeed in a process that has served nothing else (every kind is run on the unchanged tree):
                 # failing alone, after the earlier requests of this process, is itself dependence on other requests
@@ -426,7 +449,7 @@ class Lab:
 
 PAIRS_QUICK = [('echo', 'echo'), ('echo', 'post'), ('raise_resp', 'echo'), ('crash', 'abort'), ('big', 'big'), ('nf', 'redirect'), ('gen', 'echo'), ('na', 'post'),
                ('multipart', 'json'), ('json', 'echo'), ('chunked', 'chunked'), ('chunked', 'post'), ('noname_json', 'noname_json'), ('multipart', 'multipart'),
-               ('chunked_form', 'chunked_form'), ('chunked_form', 'echo'), ('echo10', 'echo10'), ('redirect10', 'echo10'), ('session', 'session'), ('static', 'static_denied'), ('static', 'static'), ('logout', 'relogin'), ('relogin', 'relogin'), ('bigfile', 'bigfile'), ('gen', 'gen'), ('gen', 'bigfile'), ('extattr', 'extattr'), ('static_range', 'static_range'), ('static_range', 'static'), ('badpath_tail', 'echo'), ('badpath_tail', 'badpath_tail'), ('prepared', 'prepared'), ('meta_post', 'big'), ('meta_post', 'meta_post')]
+               ('chunked_form', 'chunked_form'), ('chunked_form', 'echo'), ('echo10', 'echo10'), ('redirect10', 'echo10'), ('session', 'session'), ('static', 'static_denied'), ('static', 'static'), ('logout', 'relogin'), ('relogin', 'relogin'), ('bigfile', 'bigfile'), ('gen', 'gen'), ('gen', 'bigfile'), ('extattr', 'extattr'), ('static_range', 'static_range'), ('static_range', 'static'), ('badpath_tail', 'echo'), ('badpath_tail', 'badpath_tail'), ('prepared', 'prepared'), ('meta_post', 'big'), ('meta_post', 'meta_post'), ('session', 'session2'), ('session2', 'session2'), ('nonascii', 'echo'), ('nonascii', 'nonascii')]
 
 
 def one_preemption(ctx, lab, a, b, stride=1):
